@@ -106,7 +106,7 @@ subroutine arrs2(v, w, a)
   a(1:3) = mynint(a(3:5))
 end subroutine arrs2
 end module arrays2_mod
-""")
+""", tiers=("thorough",))
 
 _seed("intrinsics", """
 subroutine intr(x, y, z, v, w, n)
@@ -134,7 +134,7 @@ subroutine mm(a, b, c, x, y, r)
   y = matmul(a, x) + x
   c = matmul(a, 2*b)
 end subroutine mm
-""")
+""", tiers=("thorough",))
 
 _seed("inline", """
 module inline_mod
@@ -343,7 +343,7 @@ subroutine swap(a, n, m)
     end do
   end do
 end subroutine swap
-""")
+""", tiers=("thorough",))
 
 _seed("fuse2", """
 subroutine fuse2(a, b, c, n)
@@ -373,7 +373,7 @@ subroutine fuse2(a, b, c, n)
     a(i) = c(2,2)
   end do
 end subroutine fuse2
-""")
+""", tiers=("thorough",))
 
 _seed("inline2", """
 module inline2_mod
@@ -447,7 +447,7 @@ subroutine mystery(x)
   x%v = unresolved_thing
 end subroutine mystery
 end module inline2_mod
-""")
+""", tiers=("thorough",))
 
 _seed("matmul2", """
 subroutine mm2(a, b, c, x, y, t, r, u)
@@ -471,7 +471,7 @@ subroutine mm2(a, b, c, x, y, t, r, u)
   u = dot_product(x, y(2:5))
   call consume(dot_product(x, y))
 end subroutine mm2
-""")
+""", tiers=("thorough",))
 
 _seed("reduce2", """
 subroutine red2(a, b, x, n, d)
@@ -516,7 +516,7 @@ subroutine h2(a, n)
   end do
 end subroutine h2
 end module hoist2_mod
-""")
+""", tiers=("thorough",))
 
 # --- seeds with a history (directives cannot be read from source) -----------
 _OMP_SRC = """
@@ -612,18 +612,22 @@ def _psy(name, api, alg, dm, tiers=("quick", "thorough"), pre=()):
 _psy("lf_single_dm", "dynamo0.3", "dynamo0p3/1_single_invoke.f90", True)
 _psy("lf_single", "dynamo0.3", "dynamo0p3/1_single_invoke.f90", False)
 _psy("lf_multikern_dm", "dynamo0.3", "dynamo0p3/4_multikernel_invokes.f90",
-     True)
+     True,
+     tiers=("thorough",))
 _psy("lf_multikern", "dynamo0.3", "dynamo0p3/4_multikernel_invokes.f90",
      False)
 _psy("lf_builtins_dm", "dynamo0.3",
-     "dynamo0p3/15.14.4_builtin_and_normal_kernel_invoke.f90", True)
+     "dynamo0p3/15.14.4_builtin_and_normal_kernel_invoke.f90", True,
+     tiers=("thorough",))
 _psy("lf_quad_dm", "dynamo0.3", "dynamo0p3/1.1.0_single_invoke_xyoz_qr.f90",
-     True)
+     True,
+     tiers=("thorough",))
 _psy("lf_quad_face", "dynamo0.3",
      "dynamo0p3/1.1.6_face_qr.f90", False)
 _psy("lf_2qr_int", "dynamo0.3",
      "dynamo0p3/1.1.9_single_invoke_2qr_shapes_int_field.f90", False)
-_psy("lf_stencil_dm", "dynamo0.3", "dynamo0p3/19.1_single_stencil.f90", True)
+_psy("lf_stencil_dm", "dynamo0.3", "dynamo0p3/19.1_single_stencil.f90", True,
+     tiers=("thorough",))
 _psy("lf_wtheta_dm", "dynamo0.3", "dynamo0p3/1_single_invoke_wtheta.f90",
      True, tiers=("thorough",))
 _psy("lf_dofs", "dynamo0.3", "dynamo0p3/1.14_single_invoke_dofs.f90", True,
@@ -638,11 +642,11 @@ _psy("lf_coloured", "dynamo0.3", "dynamo0p3/1_single_invoke.f90", False,
      pre=[("Dynamo0p3ColourTrans", {}, {"t": "node", "p": [0, 0]}, {})])
 _psy("lf_omp_region", "dynamo0.3", "dynamo0p3/1_single_invoke.f90", False,
      pre=[("OMPParallelTrans", {},
-           {"t": "list", "p": [0], "i": 0, "j": 1}, {})],
-     tiers=("thorough",))
+           {"t": "list", "p": [0], "i": 0, "j": 1}, {})])
 _psy("go_two", "gocean1.0", "gocean1p0/single_invoke_two_kernels.f90", True)
 _psy("go_three", "gocean1.0", "gocean1p0/single_invoke_three_kernels.f90",
-     False)
+     False,
+     tiers=("thorough",))
 _psy("go_imports", "gocean1.0",
      "gocean1p0/single_invoke_kern_with_use.f90", False)
 _psy("go_scalar", "gocean1.0",
